@@ -75,8 +75,10 @@ def run(tier, seed):
         if r.status != 'failed':
             chk.infra_problem('%s: no verdict (%s) within %ds' % (name, r.status, tmo)); continue
         bad = [d for n, d in r.failed if 'unwinding' in d or 'INCONCLUSIVE' in d or 'BOUND' in d]
-        if bad:
+        real = [d for n, d in r.failed if d not in bad]
+        if bad and not real:
             chk.infra_problem('%s: inconclusive: %s' % (name, bad[:4])); continue
+        # a violated property inside the unwound part is a genuine counterexample even if some loop would run longer
         rt = cbmc(j[1], j[3], j[2], timeout=tmo, includes=jinc, mem_gb=24, trace=True)
         v = trace_values(rt.out)
         if name == 'esc':
